@@ -242,6 +242,10 @@ func ruleC06SubRaw(c *Checker) {
 				if f, ok := w.(*ssa.Field); ok && spv[fieldOf(f)] {
 					usesSub = true
 				}
+				// the receiver's own field where the helper is folded into the printer (a spilled value receiver)
+				if f, ok := w.(*ssa.FieldAddr); ok && spv[fieldOf(f)] {
+					usesSub = true
+				}
 			}
 			if !usesSub {
 				continue
